@@ -17,6 +17,7 @@ LEVEL = "other"
 def run(chk):
     cfgs = ["base", "z"] if chk.tier == "quick" else ["base", "z", "hi", "z+hi"]
     chk.configs = cfgs
+    chk.rule("FLOAT.double-only", "no float-typed expression and no single-precision math function in any library function")
     chk.rule("T.closed", "IsContributingClosed(fill, clip, own path type, wind_cnt cell, wind_cnt2 cell) == "
              "[the edge separates own-filled from own-unfilled AND flipping own membership changes op(subject, clip)], "
              "for every reachable cell; abstract interpretation of the function's AST, exhaustive over the partition")
@@ -28,6 +29,7 @@ def run(chk):
         e3.table_crossing_dispatch(db, chk, cfg)
         e9.rule_int64_product(db, chk, cfg)
         e3.ip_on_edge_rule(db, chk, cfg)
+        e3.no_single_precision(db, chk, cfg)
         from .c12 import _public_methods
         for cls in (["ClipperBase", "Clipper64"], ["ClipperBase", "ClipperD"]):
             eng = e2.E2(db, chk, cfg, cls)
